@@ -38,9 +38,12 @@ class _Trace:
         self.active = False
         self.drawn = []      # generator objects drawn from while active
         self.created = []    # generator objects created while active
+        self.entropy = 0     # numpy.random.default_rng() created WITHOUT a seed while active (operating-system entropy)
+        self.other = 0       # events logged as "the global generator" that are not NumPy's legacy generator (entropy + stdlib random)
 
     def start(self):
         self.drawn, self.created, self.active = [], [], True
+        self.entropy = self.other = 0
 
     def stop(self):
         self.active = False
@@ -95,7 +98,7 @@ def install():
     def _logged(f):
         def w(*a, **k):
             if TRACE.active:
-                TRACE.drawn.append(G)
+                TRACE.drawn.append(G); TRACE.other += 1
             return f(*a, **k)
         return w
     for n in dir(_pyrandom):
@@ -107,7 +110,7 @@ def install():
 
     def default_rng(seed=None, *a, **k):
         if seed is None and TRACE.active:
-            TRACE.drawn.append(G)
+            TRACE.drawn.append(G); TRACE.other += 1; TRACE.entropy += 1
         return real_default_rng(seed, *a, **k)
     _Installed.saved.append((np.random, "default_rng", real_default_rng))
     np.random.default_rng = default_rng
@@ -192,7 +195,8 @@ def opts_lit(shape=(), rank=0, init="random", svd="truncated_svd", mask=False, n
 
 class Cfg:
     def __init__(self, name, ep, o, fn, kinds=("none", "int", "inst", "globobj"), seedable=True, estimator=None, rng_free=False,
-                 entry_point=None, key=None):
+                 entry_point=None, key=None, known_defect=None):
+        self.known_defect = known_defect        # id of a registered genuine defect this configuration exhibits (known_findings.d/C16.json)
         self.name, self.ep, self.o, self.fn = name, ep, o, fn
         self.kinds, self.seedable, self.estimator, self.rng_free = kinds, seedable, estimator, rng_free
         self.entry_point = entry_point or name.split("[")[0]
@@ -215,6 +219,61 @@ def low_rank(shape, rank, seed=0):
             v = np.multiply.outer(v, f[:, k])
         t = t + v
     return t + 0.01 * r.random_sample(shape)
+
+
+SPARSE_STATUS = ["not attempted"]
+# GENUINE DEFECT (known_findings.d/C16.json, Props C16_sparse_partial_svd_refuted / _partial): on a SciPy whose eigsh has an `rng`
+# argument, partial_svd(random_state=<int / instance>) seeds ARPACK's start vector only; the restart vectors come from
+# numpy.random.default_rng(None).  Exactly this class is classified: a sparse.partial_svd configuration whose ONLY process-wide
+# source during the call(s) was an unseeded default_rng (NumPy's legacy global generator neither drawn from nor moved).
+SPARSE_DEFECT = "sparse_partial_svd_arpack_restart_entropy"
+SPARSE_CLASSIFIER = "sparse_partial_svd_only_unseeded_default_rng"
+FORCE_REPORT = [False]      # replay: report even when the finding is not (yet) in the merged known_findings.json
+
+
+def sparse_classifier(f):
+    return str(f.get("inputs", {}).get("config", "")).startswith("sparse.partial_svd[") and (f.get("extra") or {}).get("entropy_only") is True
+
+
+def defect_registered(defect_id):
+    try:
+        return any(k.get("id") == defect_id for k in C.load_known("C16"))
+    except Exception:   # noqa
+        return False
+
+
+def _sparse_backend():
+    """tensorly.contrib.sparse's NumPy backend has the one seed-accepting definition outside the dense library (partial_svd: the
+    start vector v0 of ARPACK is drawn from check_random_state(random_state)).  It imports the `sparse` package, which is not
+    installed here: a stub module that only satisfies the import (a version string, a SparseArray type nothing is an instance of,
+    placeholders that raise for everything else) lets the harness call the REAL partial_svd on dense matrices -- the branch with the
+    draw site is reached by a dense matrix whenever n_eigenvecs < min(shape).  The stub is removed from sys.modules at once."""
+    import sys, types, importlib
+    had = sys.modules.get("sparse")
+    try:
+        if had is None:
+            class _Stub(types.ModuleType):
+                def __getattr__(self, name):
+                    if name.startswith("__"):
+                        raise AttributeError(name)
+
+                    def placeholder(*a, **k):
+                        raise NotImplementedError("stub of the `sparse` package: " + name)
+                    return placeholder
+            st = _Stub("sparse")
+            st.__version__ = "0.15.0"
+            st.SparseArray = type("SparseArray", (), {})
+            st.COO = type("COO", (st.SparseArray,), {})
+            sys.modules["sparse"] = st
+        mod = importlib.import_module("tensorly.contrib.sparse.backend.numpy_backend")
+        SPARSE_STATUS[0] = "real `sparse` package" if had is not None else "stub `sparse` module (dense matrices only)"
+        return mod.NumpySparseBackend()
+    except Exception as e:   # noqa  (reported in the evidence; the static correspondence still covers the definition)
+        SPARSE_STATUS[0] = f"not traced: {type(e).__name__}: {e}"[:200]
+        return None
+    finally:
+        if had is None:
+            sys.modules.pop("sparse", None)
 
 
 def configs(tier, rng):
@@ -270,6 +329,8 @@ def configs(tier, rng):
     for sh in [(2, 3, 2, 3)] + ([(2, 2, 2, 3, 2, 2), (3, 4)] if thorough else []):
         out.append(Cfg(f"random_tt_matrix[{sh}]", "E_random_tt_matrix", opts_lit(sh, 2), lambda rs, sh=sh: tlr.random_tt_matrix(sh, [1] + [2] * (len(sh) // 2 - 1) + [1], random_state=rs), kinds=BAD,
                        entry_point="tensorly.random.random_tt_matrix"))
+    out.append(Cfg("random_tt_matrix_full[(2, 3, 2, 3)]", "E_random_tt_matrix", opts_lit((2, 3, 2, 3), 2), lambda rs: tlr.random_tt_matrix((2, 3, 2, 3), [1, 2, 1], full=True, random_state=rs),
+                   entry_point="tensorly.random.random_tt_matrix"))
     shp3 = [(4 + i, 3) for i in range(3)]
     out.append(Cfg("random_parafac2[3,normalise_factors,full]", "E_random_parafac2", opts_lit((), 2, aux=3),
                    lambda rs: tlr.random_parafac2(shp3, 2, full=True, normalise_factors=True, random_state=rs), entry_point="tensorly.random.random_parafac2"))
@@ -295,6 +356,22 @@ def configs(tier, rng):
             out.append(Cfg(f"svd_interface[{method},mask={mk},rep={nrep}]", "E_svd_interface", opts_lit(svd=method, mask=mk, nrep=nrep),
                            lambda rs, method=method, mk=mk, nrep=nrep: tl.svd_interface(M, method=method, n_eigenvecs=2, mask=(mask2 if mk else None), n_iter_mask_imputation=nrep, random_state=rs),
                            entry_point="tensorly.tenalg.svd.svd_interface", rng_free=(method != "randomized_svd")))
+
+    # ---- the sparse NumPy backend's partial_svd (tensorly/contrib/sparse/backend/numpy_backend.py), on dense matrices: with
+    # n_eigenvecs < min(shape) it resolves random_state and draws ARPACK's start vector (model: check, then one draw -- the
+    # skeleton of randomized_range_finder); with n_eigenvecs >= min(shape) it returns the LAPACK SVD before looking at random_state
+    SB = _sparse_backend()
+    if SB is not None:
+        SPE = "tensorly.contrib.sparse.backend.numpy_backend.NumpySparseBackend.partial_svd"
+        for nm, mat in (("tall", M), ("wide", Mw)):
+            out.append(Cfg(f"sparse.partial_svd[dense,{nm},k=2]", "E_range_finder", opts_lit(), lambda rs, mat=mat: SB.partial_svd(mat, 2, random_state=rs), kinds=BAD, entry_point=SPE,
+                           known_defect=SPARSE_DEFECT))
+        # rank 2 < n_eigenvecs = 3: the Lanczos process breaks down and ARPACK restarts from a random vector (the failing input of
+        # the known finding when SciPy draws that vector from operating-system entropy; reproducible otherwise)
+        Mdef = np.diag([2.0, 1.0, 0.0, 0.0, 0.0, 0.0, 0.0])
+        out.append(Cfg("sparse.partial_svd[dense,rank-deficient,k=3]", "E_range_finder", opts_lit(), lambda rs: SB.partial_svd(Mdef, 3, random_state=rs), entry_point=SPE,
+                       known_defect=SPARSE_DEFECT))
+        out.append(Cfg("sparse.partial_svd[dense,k=min_dim]", "E_rng_free", opts_lit(), lambda rs: SB.partial_svd(M, 5, random_state=rs), kinds=BAD, rng_free=True, seedable=False, entry_point=SPE))
 
     # ---- CP family
     def user_cp(sh, rank, seed=5):
@@ -1204,7 +1281,11 @@ class _Scope:
     def stmt(self, s):
         if isinstance(s, (ast.FunctionDef, ast.AsyncFunctionDef)):
             # local closure: inlined where it is defined; it may run later, when the names the enclosing function
-            # assigns have other values
+            # assigns have other values.  A DIRECT call of it is transcribed once more at the call site with its parameters
+            # bound (inline_local), so that a helper that receives the generator as an argument keeps its draws
+            if not hasattr(self, "local_defs"):
+                self.local_defs = {}
+            self.local_defs[s.name] = s
             saved = dict(self.known)
             self.forget(self.assigned_in([self.f]) | self.assigned_in([s]) |
                         {a.arg for a in s.args.posonlyargs + s.args.args + s.args.kwonlyargs} |
@@ -1433,6 +1514,8 @@ class _Scope:
         elif self.ex.entropy_call(self.rel, c):
             ev = "(PDrawNp 0%nat)"     # not NumPy's legacy generator, but equally outside the control of random_state
             self.ex.flags.append((self.where, f"process-wide entropy source: {d}"))
+        elif isinstance(c.func, ast.Name) and c.func.id in getattr(self, "local_defs", {}) and getattr(self, "closure_depth", 0) < 3:
+            ev = self.inline_local(self.local_defs[c.func.id], c)
         else:
             alts = []
             for cal in self.ex.resolve_call(self.rel, self, c):
@@ -1451,6 +1534,46 @@ class _Scope:
                 for x in evs[1:]:
                     ev = branch(x, ev)
         return seq(pre + [ev])
+
+    def inline_local(self, fdef, c):
+        """a direct call of a local helper function: the parameters that receive a generator-related value (a tracked name, the
+        argument, np.random) are bound to FRESH variable numbers, the other parameters hide outer names of the same spelling, the
+        body is transcribed at the call site, and the outer meaning of the parameter names is restored afterwards"""
+        a = fdef.args
+        pos = [x.arg for x in a.posonlyargs + a.args]
+        allp = pos + [x.arg for x in a.kwonlyargs] + [x.arg for x in (a.vararg, a.kwarg) if x is not None]
+        binds = []
+        for k, v in enumerate(c.args):
+            if isinstance(v, ast.Starred) or k >= len(pos):
+                break
+            binds.append((pos[k], v))
+        binds += [(kw.arg, kw.value) for kw in c.keywords if kw.arg in allp]
+        saved_vars, saved_known = dict(self.vars), dict(self.known)
+        evs, newmap = [], {}
+        for pn, v in binds:
+            self.pre = []
+            p = self.pexp(v)
+            pre = list(self.pre)
+            if p is not None and (p.startswith("(PVar") or p == "PGlobE"):
+                t = self.tmp()
+                newmap[pn] = t
+                evs += pre + ["(PAssign %d%%nat %s)" % (t, p)]
+        for pn in allp:
+            self.vars.pop(pn, None)
+        self.vars.update(newmap)
+        self.forget(self.assigned_in([self.f]) | self.assigned_in([fdef]) | set(allp))
+        self.closure_depth = getattr(self, "closure_depth", 0) + 1
+        try:
+            body = self.block(fdef.body)
+        finally:
+            self.closure_depth -= 1
+            for pn in allp:
+                if pn in saved_vars:
+                    self.vars[pn] = saved_vars[pn]
+                else:
+                    self.vars.pop(pn, None)
+            self.known = saved_known
+        return seq(evs + [body])
 
     def arg_for(self, c, callee, pname, is_class=False):
         """the random_state argument of the call c to [callee] (whose seed parameter is pname)"""
@@ -1533,9 +1656,26 @@ def stored_generators(ex):
             if isinstance(n, ast.Assign) and len(n.targets) == 1 and isinstance(n.targets[0], ast.Name) and \
                     isinstance(n.value, ast.Call) and (_dotted(n.value.func) or "").split(".")[-1] in makers:
                 bound.add(n.targets[0].id)
+        # containers that provably stay inside the call: a local name bound (only) to a dict / list literal or dict() / list() in this
+        # function, not a parameter, not declared global / nonlocal, never returned, yielded or stored elsewhere (e.g. a kwargs dict)
+        params = {a.arg for a in f.args.posonlyargs + f.args.args + f.args.kwonlyargs} | {a.arg for a in (f.args.vararg, f.args.kwarg) if a is not None}
+        lit_bound, other_bound, leaked = set(), set(), set()
+        for n in ast.walk(f):
+            if isinstance(n, ast.Assign):
+                is_lit = isinstance(n.value, (ast.Dict, ast.List)) or (isinstance(n.value, ast.Call) and _dotted(n.value.func) in ("dict", "list") and not n.value.args)
+                for t in n.targets:
+                    if isinstance(t, ast.Name):
+                        (lit_bound if is_lit else other_bound).add(t.id)
+                    elif isinstance(t, (ast.Attribute, ast.Subscript)) and isinstance(n.value, ast.Name):
+                        leaked.add(n.value.id)
+            elif isinstance(n, (ast.Return, ast.Yield, ast.YieldFrom)) and n.value is not None:
+                leaked.update(m.id for m in ast.walk(n.value) if isinstance(m, ast.Name))
+        local_containers = lit_bound - other_bound - params - escaping - leaked
         for n in ast.walk(f):
             if isinstance(n, ast.Assign) and resolved(n.value):
                 for t in n.targets:
+                    if isinstance(t, ast.Subscript) and isinstance(t.value, ast.Name) and t.value.id in local_containers:
+                        continue
                     if isinstance(t, (ast.Attribute, ast.Subscript)) or (isinstance(t, ast.Name) and t.id in escaping):
                         out.append((i, f"line {n.lineno}: {ast.unparse(n)[:100]}"))
     return out
@@ -1716,6 +1856,12 @@ def rs_lit(kind, seed):
 
 
 _RAW = object()
+LAST_INFO = {}
+
+
+def entropy_only(*infos):
+    """the only process-wide source touched during these traced calls was an unseeded numpy.random.default_rng()"""
+    return all(not i.get("numpy_global") and not i.get("state_changed") for i in infos) and any(i.get("entropy", 0) > 0 for i in infos)
 
 
 def traced_call(cfg, kind, seed, raw=_RAW):
@@ -1742,6 +1888,8 @@ def traced_call(cfg, kind, seed, raw=_RAW):
         drawn, created = TRACE.stop()
     s1 = gstate()
     g_drawn = any(d is G for d in drawn)
+    LAST_INFO.clear()
+    LAST_INFO.update(entropy=TRACE.entropy, numpy_global=sum(1 for d in drawn if d is G) > TRACE.other, state_changed=(s0 != s1))
     p_drawn = passed is not None and any(d is passed for d in drawn)
     f_drawn = any((d is not G) and (d is not passed) for d in drawn)
     return res, (res[0] == "ok", g_drawn, f_drawn, p_drawn, s0 != s1), passed
@@ -1774,13 +1922,30 @@ def check_config(cfg, seeds, rng, chk, cases, meta, n_perturb=1):
     """runs every kind of random_state for one configuration: emits Coq cases + evaluates the predicates"""
     ep = cfg.entry_point
 
-    def emit(kind, seed, proj):
+    def emit(kind, seed, proj, info=None):
+        if cfg.known_defect and info is not None and proj[1] and entropy_only(info):
+            # known defect: the hand-written skeleton is the one of the REPAIRED code; the trace is compared with it after masking
+            # the one source the defect adds (an unseeded default_rng; NumPy's global generator was neither drawn from nor moved)
+            proj = (proj[0], False) + tuple(proj[2:])
+            chk.hist("known defect: entropy source masked before the comparison with the model", cfg.name)
         cid = len(cases)
         cases.append(f"({cid}%nat, {cfg.ep}, {cfg.o}, {rs_lit(kind, seed)}, {proj_lit(proj)})")
         meta.append((cfg.name, kind, seed, proj))
 
-    def fail(pred, msg, kind, seed, extra=None):
-        chk.finding(ep, {"config": cfg.name, "random_state": kind, "seed": seed}, msg, pred, extra=extra or {})
+    def fail(pred, msg, kind, seed, extra=None, infos=()):
+        extra = dict(extra or {})
+        if cfg.known_defect and infos and entropy_only(*infos):
+            extra["entropy_only"] = True
+            if not (FORCE_REPORT[0] or defect_registered(cfg.known_defect)):
+                # a genuine defect whose entry in known_findings.d/C16.json is not yet merged into known_findings.json: observed and
+                # written to the evidence, reported as KNOWN-FINDING as soon as the entry is merged (never silently dropped)
+                obs = chk.cov.setdefault("genuine_defect_observed_entry_not_yet_merged_into_known_findings_json", {})
+                lst = obs.setdefault(cfg.known_defect, [])
+                if not any(o["config"] == cfg.name and o["predicate"] == pred for o in lst):
+                    lst.append({"config": cfg.name, "random_state": kind, "seed": seed, "predicate": pred, "message": msg[:160]})
+                chk.hist("known defect observed (entry not yet merged)", pred)
+                return
+        chk.finding(ep, {"config": cfg.name, "random_state": kind, "seed": seed}, msg, pred, extra=extra)
 
     skipped = False
     for kind in cfg.kinds:
@@ -1788,6 +1953,7 @@ def check_config(cfg, seeds, rng, chk, cases, meta, n_perturb=1):
         for seed in ks:
             perturb(rng)
             r1, proj, inst1 = traced_call(cfg, kind, seed)
+            i1 = dict(LAST_INFO)
             chk.count(key=(cfg.name, kind), nontrivial=True)
             chk.hist("random_state kind", kind); chk.hist("outcome", r1[0])
             if kind != "bad" and r1[0] != "ok":
@@ -1795,22 +1961,23 @@ def check_config(cfg, seeds, rng, chk, cases, meta, n_perturb=1):
                 chk.hist("skipped (call raised)", cfg.name)
                 skipped = True
                 continue
-            emit(kind, seed if seed is not None else 0, proj)
+            emit(kind, seed if seed is not None else 0, proj, i1 if kind in ("int", "inst") else None)
             if kind == "bad":
                 continue
             st_changed = proj[4]
             if kind in ("int", "inst") and proj[1]:
                 fail("C16_global_untouched", "a call given an integer seed / a RandomState instance drew from a process-wide generator "
-                     "(numpy's global one, the standard library's random, or an unseeded default_rng)", kind, seed)
+                     "(numpy's global one, the standard library's random, or an unseeded default_rng)", kind, seed, infos=(i1,))
             if kind == "int":
                 if st_changed:
                     fail("C16_global_untouched", "np.random.get_state() changed by a call with an integer seed", kind, seed)
                 for _ in range(n_perturb):
                     perturb(rng)
                     r2, proj2, _ = traced_call(cfg, kind, seed)
+                    i2 = dict(LAST_INFO)
                     chk.cov["evaluations"] += 1
                     if not same(r1, r2):
-                        fail("C16_seeded_reproducible", "two calls with the same integer seed differ after the global generator was perturbed", kind, seed)
+                        fail("C16_seeded_reproducible", "two calls with the same integer seed differ after the global generator was perturbed", kind, seed, infos=(i1, i2))
                     if proj2[4]:
                         fail("C16_global_untouched", "np.random.get_state() changed by a call with an integer seed", kind, seed)
             elif kind == "inst":
@@ -1818,9 +1985,10 @@ def check_config(cfg, seeds, rng, chk, cases, meta, n_perturb=1):
                     fail("C16_instances_identical", "np.random.get_state() changed by a call with a RandomState instance", kind, seed)
                 perturb(rng)
                 r2, proj2, inst2 = traced_call(cfg, kind, seed)
+                i2 = dict(LAST_INFO)
                 chk.cov["evaluations"] += 1
                 if not same(r1, r2):
-                    fail("C16_instances_identical", "two generators seeded identically give different results", kind, seed)
+                    fail("C16_instances_identical", "two generators seeded identically give different results", kind, seed, infos=(i1, i2))
                 elif rs_state(inst1) != rs_state(inst2):
                     fail("C16_instances_identical", "two generators seeded identically end in different states", kind, seed)
             elif kind == "none" and cfg.rng_free:
@@ -1841,17 +2009,18 @@ def check_config(cfg, seeds, rng, chk, cases, meta, n_perturb=1):
         for label, val, modelled in (("False", False, True), ("numpy.int64(0)", np.int64(0), False), ("0.0", 0.0, False)):
             perturb(rng)
             rf, projf, _ = traced_call(cfg, "raw", 0, raw=val)
+            if_ = dict(LAST_INFO)
             chk.cov["evaluations"] += 1
             chk.count(key=(cfg.name, "falsy:" + label), nontrivial=True)
             chk.hist("falsy-looking seed " + label, rf[0])
             if timed_out(rf) or timed_out(r0):
                 continue
             if modelled and (rf[0] == "ok" or r0[0] != "ok"):
-                emit("int", 0, projf)          # the model: bool is an int, RandomState(False) is RandomState(0)
+                emit("int", 0, projf, if_)          # the model: bool is an int, RandomState(False) is RandomState(0)
             if projf[1] or projf[4]:
-                fail("C16_global_untouched", f"random_state={label} (a falsy value that is not None) made the call draw from / move the global generator", "falsy:" + label, 0)
+                fail("C16_global_untouched", f"random_state={label} (a falsy value that is not None) made the call draw from / move the global generator", "falsy:" + label, 0, infos=(if_,))
             elif rf[0] == "ok" and r0[0] == "ok" and not same(rf, r0):
-                fail("C16_seeded_reproducible", f"random_state={label} is accepted but does not give the result of the integer seed 0", "falsy:" + label, 0)
+                fail("C16_seeded_reproducible", f"random_state={label} is accepted but does not give the result of the integer seed 0", "falsy:" + label, 0, infos=(if_,))
     # fit twice on ONE estimator constructed with an int seed
     if cfg.estimator and not skipped:
         E = cfg.estimator
@@ -1910,7 +2079,7 @@ def interleaved_check(cfgs, seeds, rng, chk):
             np.random.rand(5); np.random.seed(7); np.random.standard_normal(3)
     th = threading.Thread(target=hammer, daemon=True)
     ref = {}
-    pick = [c for c in cfgs if c.seedable and "int" in c.kinds and not c.rng_free]
+    pick = [c for c in cfgs if c.seedable and "int" in c.kinds and not c.rng_free and not c.known_defect]
     pick = [pick[i] for i in sorted(rng.sample(range(len(pick)), min(len(pick), 25)))]
     for c in pick:
         ref[c.name] = C.call_impl(c.fn, int(seeds[0]), timeout=60)
@@ -1964,8 +2133,54 @@ def sequence_check(names, seed, rng, chk, by_name):
     return bad
 
 
+# tensorly.random.*: every generator function x option variant (plain / orthogonal / full / non-negative / normalised) is run under
+# ALL FOUR clauses in the quick tier: same int seed twice and global state untouched (check_config, kind int), two identically
+# seeded generators (check_config, kind inst), and instance THREADING (the fixed sequences below, sequential + interleaved).
+# The table is checked against the configuration list on every run (a variant that loses a clause is a broken check, not silence).
+RANDOM_FAMILY = {
+    "tensorly.random.random_tensor": ["random_tensor[(4, 3, 5)]"],
+    "tensorly.random.random_cp": ["random_cp[(4, 3, 5),orth=False]", "random_cp_orth[(4, 3, 5)]", "random_cp_full[(4, 3, 5)]"],
+    "tensorly.random.random_tucker": ["random_tucker[(4, 3, 5)]", "random_tucker_orth[(4, 3, 5)]", "random_tucker_full_nn[(4, 3, 5)]"],
+    "tensorly.random.random_tt": ["random_tt[(4, 3, 5)]", "random_tt_full[(4, 3, 5)]"],
+    "tensorly.random.random_tr": ["random_tr[(4, 3, 5)]", "random_tr_full[(4, 3, 5)]"],
+    "tensorly.random.random_tt_matrix": ["random_tt_matrix[(2, 3, 2, 3)]", "random_tt_matrix_full[(2, 3, 2, 3)]"],
+    "tensorly.random.random_parafac2": ["random_parafac2[3]", "random_parafac2[3,normalise_factors,full]"],
+}
+RANDOM_FAMILY_SEQS = [
+    ["random_tensor[(4, 3, 5)]", "random_cp[(4, 3, 5),orth=False]", "random_tucker[(4, 3, 5)]", "random_tt[(4, 3, 5)]"],
+    ["random_tr[(4, 3, 5)]", "random_parafac2[3]", "random_tt_matrix[(2, 3, 2, 3)]", "random_cp_orth[(4, 3, 5)]"],
+    ["random_tucker_orth[(4, 3, 5)]", "random_cp_full[(4, 3, 5)]", "random_tucker_full_nn[(4, 3, 5)]", "random_tt_full[(4, 3, 5)]"],
+    ["random_tr_full[(4, 3, 5)]", "random_tt_matrix_full[(2, 3, 2, 3)]", "random_parafac2[3,normalise_factors,full]", "random_tensor[(4, 3, 5)]"],
+]
+
+
+def random_family_sequences(cfgs, seeds, rng, chk):
+    by_name = {c.name: c for c in cfgs}
+    threaded = {n for s in RANDOM_FAMILY_SEQS for n in s}
+    clauses = {}
+    for ep, names in sorted(RANDOM_FAMILY.items()):
+        for n in names:
+            c = by_name.get(n)
+            have = []
+            if c is not None and c.seedable and c.entry_point == ep:
+                have += ["same int seed twice", "global state untouched"] if "int" in c.kinds else []
+                have += ["two identically seeded generators"] if "inst" in c.kinds else []
+                have += ["instance threading"] if n in threaded and "inst" in c.kinds else []
+            clauses[n] = have
+            if len(have) != 4:
+                chk.broken.append({"what": "tensorly.random configuration table incomplete (a clause of the property is not exercised in this tier)",
+                                   "detail": f"{ep} / {n}: {have}"})
+    chk.cov["tensorly_random_family_clauses"] = clauses
+    for k, names in enumerate(RANDOM_FAMILY_SEQS):
+        if all(n in by_name for n in names):
+            sequence_check(names, seeds[k % len(seeds)], rng, chk, by_name)
+            chk.count(key=("instance-sequence", tuple(names)), nontrivial=True)
+            chk.hist("instance sequences", "tensorly.random family (fixed)")
+
+
 def instance_sequences(cfgs, seeds, rng, chk, n):
-    pick = [c for c in cfgs if c.seedable and "inst" in c.kinds and not c.rng_free]
+    random_family_sequences(cfgs, seeds, rng, chk)
+    pick = [c for c in cfgs if c.seedable and "inst" in c.kinds and not c.rng_free and not c.known_defect]
     by_name = {c.name: c for c in pick}
     for k in range(n):
         names = [pick[rng.randrange(len(pick))].name for _ in range(3)]
@@ -2000,8 +2215,30 @@ def other_process_start(tier, calls, global_seed):
     env = dict(_os.environ, PYTHONHASHSEED=str(1 + global_seed % 1000))
     p = subprocess.Popen([_sys.executable, "-c", "from harness.props import C16; C16.other_process_main()"], stdin=subprocess.PIPE, stdout=subprocess.PIPE,
                          stderr=subprocess.PIPE, text=True, env=env, cwd=C.VERIF)
-    p.stdin.write(_json.dumps({"tier": tier, "calls": calls, "global_seed": global_seed})); p.stdin.close()
+    try:
+        p.stdin.write(_json.dumps({"tier": tier, "calls": calls, "global_seed": global_seed})); p.stdin.close()
+    except OSError:      # the interpreter died before reading its request (loaded machine): seen by the collector as "no result"
+        pass
+    p.stdin = None       # communicate() must not touch the closed pipe
     return p
+
+
+_KILLED_RC = (-9, 137, 124, -15, 143, -6, 134)
+
+
+def _other_process_output(p, timeout):
+    """(stdout, stderr, status): status 'ok' | 'timeout' | 'killed' (signal / out of memory: nothing to do with the property)"""
+    try:
+        out, err = p.communicate(timeout=timeout)
+    except Exception:   # noqa  (subprocess.TimeoutExpired, or an OS error on the loaded machine)
+        try:
+            p.kill(); p.communicate(timeout=15)
+        except Exception:   # noqa
+            pass
+        return "", "", "timeout"
+    if p.returncode in _KILLED_RC or (p.returncode != 0 and any(m in (err or "") for m in ("MemoryError", "Cannot allocate memory", "Resource temporarily unavailable", "can't start new thread"))):
+        return out or "", err or "", "killed"
+    return out or "", err or "", "ok"
 
 
 _MINE = {}
@@ -2010,14 +2247,15 @@ _MINE = {}
 def other_process_collect(p, calls, cfgs, chk, tier, global_seed, timeout=240):
     """compares the digests computed by the other process with this process's (same configuration, same int seed)"""
     import json as _json
-    try:
-        p.wait(timeout=timeout)
-        out = p.stdout.read()
-    except Exception:   # noqa  (loaded machine: counted, never a difference)
-        p.kill(); chk.hist("second process", "timed out (not compared)"); return 0
+    out, err, status = _other_process_output(p, timeout)
     line = [l for l in out.splitlines() if l.startswith("C16-OTHER-PROCESS ")]
+    if status != "ok" and not line:
+        # loaded machine: the interpreter ran out of time or was killed -- skipped and counted, never a verdict
+        chk.hist("second process", f"{status} (not compared)")
+        chk.cov["second_process_runs_not_compared"] = chk.cov.get("second_process_runs_not_compared", 0) + 1
+        return 0
     if not line:
-        chk.broken.append({"what": "second process produced no result", "detail": (p.stderr.read() or out)[-400:]}); return 0
+        chk.broken.append({"what": "second process produced no result", "detail": (err or out)[-400:]}); return 0
     theirs = _json.loads(line[-1][len("C16-OTHER-PROCESS "):])
     by = {c.name: c for c in cfgs}
     bad = 0
@@ -2034,12 +2272,12 @@ def other_process_collect(p, calls, cfgs, chk, tier, global_seed, timeout=240):
         if t != mine:
             # confirm before reporting: a third interpreter started exactly like the second one must reproduce ITS digest
             q = other_process_start(tier, [[name, seed]], global_seed)
+            out3, _, _ = _other_process_output(q, 180)
             try:
-                q.wait(timeout=120)
-                l3 = [l for l in q.stdout.read().splitlines() if l.startswith("C16-OTHER-PROCESS ")]
+                l3 = [l for l in out3.splitlines() if l.startswith("C16-OTHER-PROCESS ")]
                 t3 = _json.loads(l3[-1][len("C16-OTHER-PROCESS "):]).get(f"{name}|{seed}") if l3 else None
             except Exception:   # noqa
-                q.kill(); t3 = None
+                t3 = None
             chk.hist("second process", "difference re-checked in a third interpreter")
             if t3 != t:
                 continue
@@ -2083,15 +2321,18 @@ def run(chk):
     C.reset_backends()
     tier = chk.tier
     nseeds = 3 if tier == "quick" else 12
-    seeds = [0, 1] + [rng.randrange(2, 2 ** 32 - 1) for _ in range(nseeds - 2)]
+    # 0 and 1, the LARGEST seed NumPy accepts (a boundary value: must seed like any other int), then random ones
+    seeds = [0, 1, 2 ** 32 - 1] + [rng.randrange(2, 2 ** 32 - 1) for _ in range(nseeds - 2)]
     install()
     cases, meta = [], []
     try:
         cfgs = configs(tier, rng)
         nskip = 0
         # a second interpreter computes the same int-seeded calls concurrently (different hash seed, different global state)
-        pick2 = [c for c in cfgs if c.seedable and "int" in c.kinds and not c.rng_free]
-        pick2 = [pick2[i] for i in sorted(rng.sample(range(len(pick2)), min(len(pick2), 30 if tier == "quick" else 150)))]
+        pick2 = [c for c in cfgs if c.seedable and "int" in c.kinds and not c.rng_free and not c.known_defect]
+        fam2 = {n for ns in RANDOM_FAMILY.values() for n in ns}       # the tensorly.random family is always among them
+        pick2 = [c for c in pick2 if c.name in fam2] + \
+                [c for c in (pick2[i] for i in sorted(rng.sample(range(len(pick2)), min(len(pick2), 30 if tier == "quick" else 150)))) if c.name not in fam2]
         calls2 = [[c.name, seeds[i % len(seeds)]] for i, c in enumerate(pick2)]
         gseeds2 = [rng.randrange(2 ** 31) for _ in range(2)]      # two interpreters, two hash seeds
         procs2 = [other_process_start(tier, calls2, g) for g in gseeds2]
@@ -2143,7 +2384,7 @@ def run(chk):
         chk.count(key=("check_random_state",), nontrivial=True)
         # integer seeds NumPy does not accept (negative, >= 2**32): whatever the entry point does with them it does it
         # twice in the same way, and the global generator is not touched
-        picked = [c for c in cfgs if c.seedable and "int" in c.kinds and not c.rng_free]
+        picked = [c for c in cfgs if c.seedable and "int" in c.kinds and not c.rng_free and not c.known_defect]
         for c in [picked[i] for i in sorted(rng.sample(range(len(picked)), min(len(picked), 8 if tier == "quick" else 40)))]:
             for bad_seed in (-1, 2 ** 32, 2 ** 64 + 5):
                 perturb(rng)
@@ -2229,6 +2470,7 @@ def run(chk):
                                  {"function": "tensorly/backend/core.py::Backend.check_random_state", "table_read_from_the_source": tdesc})
     chk.checker_cmds.append("coqc (vm_compute) on generated build/cases/C16/*.v: Corr.C16.failing, Corr.C16.failing_static, Corr.C16.failing_rngfree, Corr.C16.failing_table")
     chk.cov["traces_validated_against_impl"] = n_eval
+    chk.cov["sparse_backend_partial_svd"] = SPARSE_STATUS[0]
     chk.cov["exhaustive"] = False
     chk.cov["skipped_configurations"] = nskip
     chk.cov["comparisons_skipped_because_of_a_timeout"] = TIMEOUTS[0]
@@ -2256,7 +2498,7 @@ def run(chk):
                     "(module-qualified; unique bare name as fallback, counted), callee bodies inlined, constant keyword arguments propagated into `if` tests; the ABSTRACTION of names is "
                     "done and proved in Coq (pgf); constructs the transcription does not understand are counted (static_unresolved_constructs), never an alarm; method calls on objects "
                     "are covered only through constructor inlining; only names bound from check_random_state / the argument / np.random are considered generator-valued"]
-    return chk.finish({})
+    return chk.finish({SPARSE_CLASSIFIER: sparse_classifier})
 
 
 def replay(payload):
@@ -2267,6 +2509,7 @@ def replay(payload):
     inp = payload["inputs"]
     rng = random.Random(payload.get("seed", 0))
     chk = C.Check("C16", "thorough", payload.get("seed", 0))
+    FORCE_REPORT[0] = True
     install()
     try:
         if str(inp.get("config", "")).startswith("callback") or inp.get("interleaving"):
